@@ -473,7 +473,7 @@ func (env *Env) evalCall(e *Expr) *Val {
 	case "allocated":
 		v := env.eval(e.Args[0])
 		id := identity(v)
-		return mathBool(And(Lt(Num(0), id), Lt(id, env.cur.ac)))
+		return mathBool(Lt(id, env.cur.ac))
 	case "typeis": // typeis(x, T): dynamic type of interface value x is T (a type name)
 		v := env.eval(e.Args[0])
 		t := env.resolveType(e.Args[1])
